@@ -291,6 +291,9 @@ pub fn items(tier: Tier) -> Vec<Item> {
         }
     }
     add("parse-err-pair", "EnumString", "control: both parse_err attributes with a default variant".into(), format!("{}{}", errdefs.replace("pub struct MyErr;", "#[derive(Debug)] pub struct MyErr;"), en("EnumString", "#[strum(parse_err_ty = MyErr, parse_err_fn = my_err)]\n", "", &["V0".to_string(), "#[strum(default)] D(String)".to_string()])), true);
+    // (attributes of a DISABLED variant are ignored by every derive together with the variant — a float property, `default` on
+    // two fields, placeholders on a disabled unit variant all compile; the statement's rules are about variants the derive uses,
+    // so such items are not part of the domain; DESIGN.md §6, out-of-domain observations)
     // R11': unsupported literal not first / in the third group / negative float
     for l in ["1.5", "'c'", "b\"bs\"", "-2.5"] {
         add("prop-literal", "EnumProperty", format!("EnumProperty: props(a = 1, b = true, k = {}) last of three", l), en("EnumProperty", "", "", &place(&format!("#[strum(props(a = 1, b = true, k = {}))] X", l), 1)), false);
